@@ -131,7 +131,7 @@ def main(tier, replay=None):
     build(["tower_rig"])
     rng = random.Random(sd)
     camp = T.Campaign(wd)
-    sc = T.fam_reorg(rng, deep=(tier != "quick"))[::(3 if tier == "quick" else 1)] + T.fam_random(rng, 8 if tier == "quick" else 60)
+    sc = T.fam_reorg(rng, deep=(tier != "quick"))[::(3 if tier == "quick" else 1)] + T.fam_midreorg(rng) + T.fam_random(rng, 8 if tier == "quick" else 60)
     camp.run(sc, "c19tower")
     for t in camp.tags:
         if t["prop"] == "C19":
